@@ -9,11 +9,11 @@ Open Scope string_scope.
 Open Scope list_scope.
 
 (* all ranks traverse the same (metric, state) keys and the sync of every key is ideal *)
-Definition schema_agree (g : list nat) (Wg : nat) (mds : nat -> mdict) (order : list key)
+Definition schema_agree (fx : fixes) (g : list nat) (Wg : nat) (mds : nat -> mdict) (order : list key)
            (iv : key -> nat -> gs) (tl : key -> gs) : Prop :=
   (forall i, i < List.length g -> traversal (mds i) = order) /\
   (forall k, In k order -> exists ss, (forall i, i < List.length g -> lookup2 (mds i) k = Some (ss i)) /\
-                                      ideal_family g None Wg ss (iv k) (tl k)).
+                                      ideal_family fx g None Wg ss (iv k) (tl k)).
 
 (* what every rank gathers: slot j < n holds rank j's ideal values, addressed by key *)
 Definition gathered_ok (n Wg : nat) (order : list key) (iv : key -> nat -> gs) (tl : key -> gs)
@@ -67,11 +67,11 @@ Proof.
   intros Hin. apply in_map_iff in Hin as (y & E & Hy). inversion E; subst. contradiction.
 Qed.
 
-Lemma schema_agree_structural g Wg (sds : nat -> sdict) (names : list string) : let n := List.length g in
+Lemma schema_agree_structural fx g Wg (sds : nat -> sdict) (names : list string) : let n := List.length g in
   n > 0 -> n <= Wg ->
   (forall i, i < n -> map fst (sort_keys (sds i)) = names) ->
-  (forall s, In s names -> exists ss, (forall i, i < n -> assoc s (sds i) = Some (ss i)) /\ kind_ok g ss) ->
-  schema_agree g Wg (fun i => [(TMP, sds i)]) (map (fun x => (TMP, x)) names) (state_iv sds) (state_tl sds).
+  (forall s, In s names -> exists ss, (forall i, i < n -> assoc s (sds i) = Some (ss i)) /\ kind_ok fx g ss) ->
+  schema_agree fx g Wg (fun i => [(TMP, sds i)]) (map (fun x => (TMP, x)) names) (state_iv sds) (state_tl sds).
 Proof.
   intros n Hn HW Hnames H. split.
   - intros i Hi. rewrite traversal_tmp, (Hnames i Hi). reflexivity.
@@ -79,10 +79,10 @@ Proof.
     exists ss. split.
     + intros i Hi. unfold lookup2. cbn [assoc fst snd]. rewrite String.eqb_refl. apply Hl, Hi.
     + unfold state_tl. cbn [snd]. rewrite (Hl 0 Hn).
-      apply (ideal_family_ext g None Wg ss ss _ (fun j => ideal_of_state (ss j))).
+      apply (ideal_family_ext fx g None Wg ss ss _ (fun j => ideal_of_state (ss j))).
       * reflexivity.
       * intros j Hj. unfold state_iv. cbn [snd]. rewrite (Hl j Hj). reflexivity.
-      * apply (ideal_of_kind g None Wg ss Hn HW I Hkind).
+      * apply (ideal_of_kind fx g None Wg ss Hn HW I Hkind).
 Qed.
 
 Section ToolkitP.
@@ -91,162 +91,163 @@ Variable sd : M -> sdict.
 Variable mrg : M -> list pseudo_t -> M.
 Variable cmp : M -> Out.
 
-Lemma world1_metric i Wg m : get_synced_metric M sd mrg 1 i Wg m = Ret (Ok m).
+Lemma world1_metric fx g i Wg m : get_synced_metric M sd mrg fx g 1 i Wg m = Ret (Ok m).
 Proof. reflexivity. Qed.
-Lemma world1_collection i Wg mc : get_synced_metric_collection M sd mrg 1 i Wg mc = Ret (Ok mc).
+Lemma world1_collection fx g i Wg mc : get_synced_metric_collection M sd mrg fx g 1 i Wg mc = Ret (Ok mc).
 Proof. reflexivity. Qed.
-Lemma world1_run r Wg m : run_all (respond [r]) [get_synced_metric M sd mrg 1 0 Wg m] = Some [Ok m].
+Lemma world1_run fx r Wg m : run_all (respond [r]) [get_synced_metric M sd mrg fx [r] 1 0 Wg m] = Some [Ok m].
 Proof. reflexivity. Qed.
-Lemma world1_run_collection r Wg mc :
-  run_all (respond [r]) [get_synced_metric_collection M sd mrg 1 0 Wg mc] = Some [Ok mc].
+Lemma world1_run_collection fx r Wg mc :
+  run_all (respond [r]) [get_synced_metric_collection M sd mrg fx [r] 1 0 Wg mc] = Some [Ok mc].
 Proof. reflexivity. Qed.
 
-Lemma synced_states_agree g Wg mds order iv tl : let n := List.length g in
-  n <= Wg -> schema_agree g Wg mds order iv tl ->
+Lemma synced_states_agree fx g Wg mds order iv tl : let n := List.length g in
+  n <= Wg -> schema_agree fx g Wg mds order iv tl ->
   exists gath, gathered_ok n Wg order iv tl gath /\
-    run_all (respond g) (map (fun i => sync_states None i Wg (mds i) (traversal (mds i))) (seq 0 n))
+    run_all (respond g) (map (fun i => sync_states fx g None i Wg (mds i) (traversal (mds i))) (seq 0 n))
     = Some (map (fun _ => Ok (Some gath)) (seq 0 n)).
 Proof.
   intros n HW [Htr Hid].
-  destruct (mixed_collection_addressing g None Wg mds order iv tl HW Hid) as (gath & Hrun & Hok).
+  destruct (mixed_collection_addressing fx g None Wg mds order iv tl HW Hid) as (gath & Hrun & Hok).
   exists gath. split; [exact Hok|].
-  refine (extK g (fun i => sync_states None i Wg (mds i) order) _ _ _ _ _).
+  refine (extK g (fun i => sync_states fx g None i Wg (mds i) order) _ _ _ _ _).
   - intros i Hi. apply in_seq in Hi. rewrite Htr by lia. reflexivity.
   - exact Hrun.
 Qed.
 
-Theorem sync_equals_local_merge g Wg (ms : nat -> M) order iv tl : let n := List.length g in
-  n <> 1 -> n <= Wg -> schema_agree g Wg (fun i => [(TMP, sd (ms i))]) order iv tl ->
+Theorem sync_equals_local_merge fx g Wg (ms : nat -> M) order iv tl : let n := List.length g in
+  n <> 1 -> n <= Wg -> schema_agree fx g Wg (fun i => [(TMP, sd (ms i))]) order iv tl ->
   exists gath, gathered_ok n Wg order iv tl gath /\
-    run_all (respond g) (map (fun i => get_synced_metric M sd mrg n i Wg (ms i)) (seq 0 n))
+    run_all (respond g) (map (fun i => get_synced_metric M sd mrg fx g n i Wg (ms i)) (seq 0 n))
     = Some (map (fun i => Ok (mrg (ms i) (others i n (map (pseudo TMP) gath) []))) (seq 0 n)).
 Proof.
   intros n Hn1 HW Hs.
-  destruct (synced_states_agree g Wg _ order iv tl HW Hs) as (gath & Hok & Hrun).
+  destruct (synced_states_agree fx g Wg _ order iv tl HW Hs) as (gath & Hok & Hrun).
   exists gath. split; [exact Hok|]. unfold get_synced_metric.
   apply Nat.eqb_neq in Hn1. fold n. rewrite Hn1. cbv zeta.
-  bindr_with (fun i => sync_states None i Wg [(TMP, sd (ms i))] (traversal [(TMP, sd (ms i))]))
+  bindr_with (fun i => sync_states fx g None i Wg [(TMP, sd (ms i))] (traversal [(TMP, sd (ms i))]))
              (fun _ : nat => Some gath).
   { exact Hrun. }
   apply run_all_ret_ext. intros i _. reflexivity.
 Qed.
 
-Theorem sync_collection_equals_local_merge g Wg (mcs : nat -> list (string * M)) order iv tl :
+Theorem sync_collection_equals_local_merge fx g Wg (mcs : nat -> list (string * M)) order iv tl :
   let n := List.length g in
   n <> 1 -> n <= Wg ->
-  schema_agree g Wg (fun i => map (fun km => (fst km, sd (snd km))) (mcs i)) order iv tl ->
+  schema_agree fx g Wg (fun i => map (fun km => (fst km, sd (snd km))) (mcs i)) order iv tl ->
   exists gath, gathered_ok n Wg order iv tl gath /\
-    run_all (respond g) (map (fun i => get_synced_metric_collection M sd mrg n i Wg (mcs i)) (seq 0 n))
+    run_all (respond g) (map (fun i => get_synced_metric_collection M sd mrg fx g n i Wg (mcs i)) (seq 0 n))
     = Some (map (fun i => Ok (map (fun km => (fst km, mrg (snd km) (others i n (map (pseudo (fst km)) gath) [])))
                                   (mcs i))) (seq 0 n)).
 Proof.
   intros n Hn1 HW Hs.
-  destruct (synced_states_agree g Wg _ order iv tl HW Hs) as (gath & Hok & Hrun).
+  destruct (synced_states_agree fx g Wg _ order iv tl HW Hs) as (gath & Hok & Hrun).
   exists gath. split; [exact Hok|]. unfold get_synced_metric_collection.
   apply Nat.eqb_neq in Hn1. fold n. rewrite Hn1. cbv zeta.
-  bindr_with (fun i => sync_states None i Wg (map (fun km => (fst km, sd (snd km))) (mcs i))
+  bindr_with (fun i => sync_states fx g None i Wg (map (fun km => (fst km, sd (snd km))) (mcs i))
                                    (traversal (map (fun km => (fst km, sd (snd km))) (mcs i))))
              (fun _ : nat => Some gath).
   { exact Hrun. }
   apply run_all_ret_ext. intros i _. reflexivity.
 Qed.
 
-Lemma synced_states_exact g Wg mds order iv tl : let n := List.length g in
-  n <= Wg -> NoDup order -> schema_agree g Wg mds order iv tl ->
-  run_all (respond g) (map (fun i => sync_states None i Wg (mds i) (traversal (mds i))) (seq 0 n))
+Lemma synced_states_exact fx g Wg mds order iv tl : let n := List.length g in
+  n <= Wg -> NoDup order -> schema_agree fx g Wg mds order iv tl ->
+  run_all (respond g) (map (fun i => sync_states fx g None i Wg (mds i) (traversal (mds i))) (seq 0 n))
   = Some (map (fun _ => Ok (Some (ideal_gath n Wg order iv tl))) (seq 0 n)).
 Proof.
   intros n HW Hnd [Htr Hid].
-  refine (extK g (fun i => sync_states None i Wg (mds i) order) _ _ _ _ _).
+  refine (extK g (fun i => sync_states fx g None i Wg (mds i) order) _ _ _ _ _).
   - intros i Hi. apply in_seq in Hi. rewrite Htr by lia. reflexivity.
-  - exact (mixed_collection_exact g None Wg mds order iv tl HW Hnd Hid).
+  - exact (mixed_collection_exact fx g None Wg mds order iv tl HW Hnd Hid).
 Qed.
 
 (* explicit form: the merged-in pseudo-metrics are exactly the ideal values of the OTHER ranks, in
    rank order, each in traversal order *)
-Theorem sync_equals_local_merge_exact g Wg (ms : nat -> M) order iv tl : let n := List.length g in
-  n <> 1 -> n <= Wg -> NoDup order -> schema_agree g Wg (fun i => [(TMP, sd (ms i))]) order iv tl ->
-  run_all (respond g) (map (fun i => get_synced_metric M sd mrg n i Wg (ms i)) (seq 0 n))
+Theorem sync_equals_local_merge_exact fx g Wg (ms : nat -> M) order iv tl : let n := List.length g in
+  n <> 1 -> n <= Wg -> NoDup order -> schema_agree fx g Wg (fun i => [(TMP, sd (ms i))]) order iv tl ->
+  run_all (respond g) (map (fun i => get_synced_metric M sd mrg fx g n i Wg (ms i)) (seq 0 n))
   = Some (map (fun i => Ok (mrg (ms i) (map (ideal_pseudo order iv)
                                             (filter (fun r => negb (Nat.eqb r i)) (seq 0 n))))) (seq 0 n)).
 Proof.
   intros n Hn1 HW Hnd Hs.
-  destruct g as [|g0 g']; [reflexivity|].
+  assert (Hcase : g = [] \/ n > 0) by (unfold n; destruct g; [left; reflexivity|right; cbn; lia]).
+  destruct Hcase as [Eg|Hn]; [unfold n; rewrite Eg; reflexivity|].
   assert (Hk : forall k, In k order -> fst k = TMP).
-  { intros k Hin. destruct Hs as [Htr _]. rewrite <- (Htr 0) in Hin by (cbn; lia).
+  { intros k Hin. destruct Hs as [Htr _]. rewrite <- (Htr 0) in Hin by exact Hn.
     apply traversal_single in Hin. exact Hin. }
-  pose proof (synced_states_exact (g0 :: g') Wg _ order iv tl HW Hnd Hs) as Hrun.
+  pose proof (synced_states_exact fx g Wg _ order iv tl HW Hnd Hs) as Hrun.
   unfold get_synced_metric. apply Nat.eqb_neq in Hn1. fold n. rewrite Hn1. cbv zeta.
-  bindr_with (fun i => sync_states None i Wg [(TMP, sd (ms i))] (traversal [(TMP, sd (ms i))]))
+  bindr_with (fun i => sync_states fx g None i Wg [(TMP, sd (ms i))] (traversal [(TMP, sd (ms i))]))
              (fun _ : nat => Some (ideal_gath n Wg order iv tl)).
   { exact Hrun. }
   apply run_all_ret_ext. intros i _. do 3 f_equal. apply others_ideal; assumption.
 Qed.
 
-Theorem sync_collection_equals_local_merge_exact g Wg (mcs : nat -> list (string * M)) order iv tl :
+Theorem sync_collection_equals_local_merge_exact fx g Wg (mcs : nat -> list (string * M)) order iv tl :
   let n := List.length g in
   n <> 1 -> n <= Wg -> NoDup order ->
-  schema_agree g Wg (fun i => map (fun km => (fst km, sd (snd km))) (mcs i)) order iv tl ->
-  run_all (respond g) (map (fun i => get_synced_metric_collection M sd mrg n i Wg (mcs i)) (seq 0 n))
+  schema_agree fx g Wg (fun i => map (fun km => (fst km, sd (snd km))) (mcs i)) order iv tl ->
+  run_all (respond g) (map (fun i => get_synced_metric_collection M sd mrg fx g n i Wg (mcs i)) (seq 0 n))
   = Some (map (fun i => Ok (map (fun km => (fst km, mrg (snd km)
                  (others i n (map (pseudo (fst km)) (ideal_gath n Wg order iv tl)) []))) (mcs i))) (seq 0 n)).
 Proof.
   intros n Hn1 HW Hnd Hs.
-  pose proof (synced_states_exact g Wg _ order iv tl HW Hnd Hs) as Hrun.
+  pose proof (synced_states_exact fx g Wg _ order iv tl HW Hnd Hs) as Hrun.
   unfold get_synced_metric_collection. apply Nat.eqb_neq in Hn1. fold n. rewrite Hn1. cbv zeta.
-  bindr_with (fun i => sync_states None i Wg (map (fun km => (fst km, sd (snd km))) (mcs i))
+  bindr_with (fun i => sync_states fx g None i Wg (map (fun km => (fst km, sd (snd km))) (mcs i))
                                    (traversal (map (fun km => (fst km, sd (snd km))) (mcs i))))
              (fun _ : nat => Some (ideal_gath n Wg order iv tl)).
   { exact Hrun. }
   apply run_all_ret_ext. intros i _. reflexivity.
 Qed.
 
-Theorem sync_equals_local_merge_structural g Wg (ms : nat -> M) (names : list string) :
+Theorem sync_equals_local_merge_structural fx g Wg (ms : nat -> M) (names : list string) :
   let n := List.length g in
   n > 1 -> n <= Wg -> NoDup names ->
   (forall i, i < n -> map fst (sort_keys (sd (ms i))) = names) ->
-  (forall s, In s names -> exists ss, (forall i, i < n -> assoc s (sd (ms i)) = Some (ss i)) /\ kind_ok g ss) ->
-  run_all (respond g) (map (fun i => get_synced_metric M sd mrg n i Wg (ms i)) (seq 0 n))
+  (forall s, In s names -> exists ss, (forall i, i < n -> assoc s (sd (ms i)) = Some (ss i)) /\ kind_ok fx g ss) ->
+  run_all (respond g) (map (fun i => get_synced_metric M sd mrg fx g n i Wg (ms i)) (seq 0 n))
   = Some (map (fun i => Ok (mrg (ms i)
              (map (fun j => map (fun s => (s, state_iv (fun i => sd (ms i)) (TMP, s) j)) names)
                   (filter (fun r => negb (Nat.eqb r i)) (seq 0 n))))) (seq 0 n)).
 Proof.
   intros n Hn HW Hnd Hnames H.
   etransitivity.
-  { apply (sync_equals_local_merge_exact g Wg ms (map (fun x => (TMP, x)) names)
+  { apply (sync_equals_local_merge_exact fx g Wg ms (map (fun x => (TMP, x)) names)
              (state_iv (fun i => sd (ms i))) (state_tl (fun i => sd (ms i))));
       [fold n; lia|exact HW|apply NoDup_tmp, Hnd|].
-    apply (schema_agree_structural g Wg (fun i => sd (ms i)) names); [fold n; lia|exact HW|exact Hnames|exact H]. }
+    apply (schema_agree_structural fx g Wg (fun i => sd (ms i)) names); [fold n; lia|exact HW|exact Hnames|exact H]. }
   fold n. f_equal. apply map_ext. intros i. do 2 f_equal. apply map_ext. intros j.
   unfold ideal_pseudo. rewrite map_map. reflexivity.
 Qed.
 
-Corollary sync_no_mismatch g Wg (ms : nat -> M) order iv tl : let n := List.length g in
-  n <> 1 -> n <= Wg -> schema_agree g Wg (fun i => [(TMP, sd (ms i))]) order iv tl ->
-  run_all (respond g) (map (fun i => get_synced_metric M sd mrg n i Wg (ms i)) (seq 0 n)) <> None.
+Corollary sync_no_mismatch fx g Wg (ms : nat -> M) order iv tl : let n := List.length g in
+  n <> 1 -> n <= Wg -> schema_agree fx g Wg (fun i => [(TMP, sd (ms i))]) order iv tl ->
+  run_all (respond g) (map (fun i => get_synced_metric M sd mrg fx g n i Wg (ms i)) (seq 0 n)) <> None.
 Proof.
-  intros n H1 HW Hs. destruct (sync_equals_local_merge g Wg ms order iv tl H1 HW Hs) as (gath & _ & E).
+  intros n H1 HW Hs. destruct (sync_equals_local_merge fx g Wg ms order iv tl H1 HW Hs) as (gath & _ & E).
   fold n in E. rewrite E. discriminate.
 Qed.
 
 (* the entry points built on get_synced_metric *)
-Corollary sync_and_compute_spec g Wg (ms : nat -> M) order iv tl : let n := List.length g in
-  n <> 1 -> n <= Wg -> schema_agree g Wg (fun i => [(TMP, sd (ms i))]) order iv tl ->
+Corollary sync_and_compute_spec fx g Wg (ms : nat -> M) order iv tl : let n := List.length g in
+  n <> 1 -> n <= Wg -> schema_agree fx g Wg (fun i => [(TMP, sd (ms i))]) order iv tl ->
   exists gath, gathered_ok n Wg order iv tl gath /\
-    run_all (respond g) (map (fun i => sync_and_compute M Out sd mrg cmp n i Wg (ms i)) (seq 0 n))
+    run_all (respond g) (map (fun i => sync_and_compute M Out sd mrg cmp fx g n i Wg (ms i)) (seq 0 n))
     = Some (map (fun i => Ok (cmp (mrg (ms i) (others i n (map (pseudo TMP) gath) [])))) (seq 0 n)) /\
-    run_all (respond g) (map (fun i => get_synced_state_dict M sd mrg n i Wg (ms i)) (seq 0 n))
+    run_all (respond g) (map (fun i => get_synced_state_dict M sd mrg fx g n i Wg (ms i)) (seq 0 n))
     = Some (map (fun i => Ok (sd (mrg (ms i) (others i n (map (pseudo TMP) gath) [])))) (seq 0 n)).
 Proof.
-  intros n H1 HW Hs. destruct (sync_equals_local_merge g Wg ms order iv tl H1 HW Hs) as (gath & Hok & E).
+  intros n H1 HW Hs. destruct (sync_equals_local_merge fx g Wg ms order iv tl H1 HW Hs) as (gath & Hok & E).
   fold n in E. exists gath. split; [exact Hok|]. split.
   - unfold sync_and_compute, pmap.
-    bindr_with (fun i => get_synced_metric M sd mrg n i Wg (ms i))
+    bindr_with (fun i => get_synced_metric M sd mrg fx g n i Wg (ms i))
                (fun i => mrg (ms i) (others i n (map (pseudo TMP) gath) [])).
     { exact E. }
     apply run_all_ret_ext. intros i _. reflexivity.
   - unfold get_synced_state_dict, pmap.
-    bindr_with (fun i => get_synced_metric M sd mrg n i Wg (ms i))
+    bindr_with (fun i => get_synced_metric M sd mrg fx g n i Wg (ms i))
                (fun i => mrg (ms i) (others i n (map (pseudo TMP) gath) [])).
     { exact E. }
     apply run_all_ret_ext. intros i _. reflexivity.
